@@ -9,8 +9,9 @@ import "golang.org/x/net/html"
 
 // VerifItem is one list item of a VerifElement.
 type VerifItem struct {
-	Text  string
-	Level int
+	Text    string
+	Level   int
+	Ordered bool // kind of the list the item was met in
 }
 
 // VerifElement is an exported copy of one parsedElement.
@@ -33,7 +34,7 @@ func (r *Reader) VerifElements(mode NavigationExclusionMode) []VerifElement {
 	for _, e := range els {
 		v := VerifElement{Type: e.Type, Text: e.Text, Level: e.Level, Ordered: e.Ordered, Table: e.Table}
 		for _, it := range e.Items {
-			v.Items = append(v.Items, VerifItem{Text: it.Text, Level: it.Level})
+			v.Items = append(v.Items, VerifItem{Text: it.Text, Level: it.Level, Ordered: it.Ordered})
 		}
 		out = append(out, v)
 	}
